@@ -18,14 +18,15 @@ ASSUME JsonSerialize(IOEnv.OUT, [i \in 1..Len(Cases) |->
 """
 FS_CFG = ("SPECIFICATION Spec\nCONSTANTS MaxParams = {p}\n MaxOrder = {o}\n MaxNumel = {n}\n MaxN = {k}\n"
           "INVARIANT InvExactlyOnce\nINVARIANT InvShardsDisjoint\nCHECK_DEADLOCK FALSE\n")
-SHAPES = [[[4, 3], [5]], [[3, 4, 2]], [[7, 2], [3, 3], [4]], [[2, 3, 2, 2], [6]], [[5, 5]], [[6, 2], [2, 2, 3]], [[9], [4, 4]], [[3, 7]]]
+SHAPES = [[[4, 3], [5]], [[3, 4, 2]], [[7, 2], [3, 3], [4]], [[2, 3, 2, 2], [6]], [[5, 5]], [[6, 2], [2, 2, 3]], [[9], [4, 4]], [[3, 7]],
+          [[6, 10], [10]], [[8, 6]], [[4, 5, 3]], [[5, 8], [3, 8]]]      # the last ones give slabs of several rows that are cut into column blocks
 
 
 def make_task(rng, kind):
     shapes = rng.choice(SHAPES)
     total = sum(int(__import__("math").prod(s)) for s in shapes)
-    S = rng.choice([s for s in (1, 2, 3, 4, 5, 8) if s <= total // 2])
-    family.TEMPLATES["_sh"] = dict(shapes=shapes, maxdim=rng.choice([2, 3, 4, 1024]), merge=rng.random() < 0.5, ignored=[])
+    S = rng.choice([s for s in (1, 2, 2, 3, 3, 4, 5, 8) if s <= total // 2])
+    family.TEMPLATES["_sh"] = dict(shapes=shapes, maxdim=rng.choice([2, 3, 4, 4, 5, 1024]), merge=rng.random() < 0.4, ignored=[])
     g = family.draw_group(rng, "_sh")
     if g["kind"] == "soap":
         g["method"] = "eigh"
@@ -33,7 +34,7 @@ def make_task(rng, kind):
     n = rng.choice([3, 4])
     masks, cur = [], [True] * len(shapes)
     for _ in range(n):
-        if rng.random() < 0.5:
+        if rng.random() < 0.3:
             i = rng.randrange(len(cur))
             cur[i] = not cur[i]
         masks.append(list(cur))
@@ -154,7 +155,7 @@ def run(ctx):
         ctx.add_tlc(r, f"ShampooDist (one replicate column) R={W} GS={GS}")
         if not r.ok:
             raise tlc.TLCMachineryError(f"ShampooDist column model violates {r.violated}")
-    tasks = attach_spec([make_task(rng, "fsdp") for _ in range(24 if quick else 300)] + [make_task(rng, "hsdp") for _ in range(24 if quick else 300)])
+    tasks = attach_spec([make_task(rng, "fsdp") for _ in range(60 if quick else 600)] + [make_task(rng, "hsdp") for _ in range(30 if quick else 300)])
     tasks = [t for t in tasks if usable(t)]
     results = sp.pool_map(dc.run_shard_task, tasks)
     evaluate(ctx, tasks, results, "C07")
